@@ -144,3 +144,18 @@ def user_code(name, result=None):
             raise PyRaise(ExcVal("Any", [], site=f"user code {name}"))
         return Val(result, result.fresh(name)) if result is not None else NONE
     return f
+
+
+# ---- Context.new(): a fresh Context whose only layer is Django's builtins layer (A-DJ)
+BUILTINS = z3.Const("django_context_builtins", LAYER.sort())
+
+
+def _ctx_new(run, obj, args, kwargs, node):
+    ref = run.alloc(CTX)
+    run.store_field(ref.t, CTX, "dicts", Val(LAYERS, z3.Unit(BUILTINS)))
+    return ref
+
+
+REG.stub(("method", f"Ref_{CTX}", "new"), _ctx_new)
+# render_context is shared by reference; its identity is all that matters here
+REG.classes[CTX]["render_context"] = __import__("pyvc.types", fromlist=["TObj"]).TObj("RenderContext")
